@@ -14,7 +14,7 @@ Definition e := %s.
 Fixpoint firstdiff (i : N) (a b : list step_obs) : option (N * option step_obs * option step_obs) :=
   match a, b with
   | [], [] => None
-  | x :: a', y :: b' => if prod_eqb (list_eqb w5_eqb) (list_eqb N.eqb) x y then firstdiff (N.succ i) a' b' else Some (i, Some x, Some y)
+  | x :: a', y :: b' => if step_obs_eqb x y then firstdiff (N.succ i) a' b' else Some (i, Some x, Some y)
   | x :: _, [] => Some (i, Some x, None)
   | [], y :: _ => Some (i, None, Some y)
   end.
